@@ -1,12 +1,18 @@
 #!/bin/bash
-# usage: tools/r5_run.sh <lab dir> <out name> <Cxx>...   confirm each sub-agent deliverable, then run all quick checks on it in the lab
+# usage: tools/r5_run.sh <lab dir> <out name> <Cxx>...   confirm each sub-agent deliverable, then run the quick checks on it in the lab
+# (own property first, then the related ones listed below; "all" as first id after <out name> runs all 20)
 LAB="$1"; OUT="$2"; shift 2
 exec 8>"$LAB.lock"; flock 8
+ALL=""; if [ "$1" = "all" ]; then ALL=1; shift; fi
+declare -A REL=( [C01]="C01 C02 C05 C11" [C02]="C02 C01 C12 C03" [C03]="C03 C01 C14" [C04]="C04 C02 C19" [C05]="C05 C01 C03 C11" [C06]="C06 C01 C11 C03"
+ [C07]="C07 C01 C14" [C08]="C08 C09 C12" [C09]="C09 C03 C08" [C10]="C10 C09 C19 C17" [C11]="C11 C01 C17 C18" [C12]="C12 C19 C17 C13" [C13]="C13 C12 C17"
+ [C14]="C14 C04 C15" [C15]="C15 C14 C19" [C16]="C16 C02 C05 C01" [C17]="C17 C12 C13" [C18]="C18 C05 C11 C14" [C19]="C19 C04 C15" [C20]="C20 C08 C17" )
 for P in "$@"; do
   [ -d /verif/seeded/${P}I ] || /verif/tools/r5_take.sh $P I
   D=/verif/seeded/${P}I
   [ -d "$D" ] || continue
-  /verif/tools/run_mutant_lab.sh "$LAB" "$D/patch.diff" > "$D/$OUT" 2>&1
-  echo "$P: $(grep -v 'rc=0' "$D/$OUT" | tr '\n' ';' | cut -c1-600)"
+  IDS="${REL[$P]}"; [ -n "$ALL" ] && IDS=""
+  /verif/tools/run_mutant_lab.sh "$LAB" "$D/patch.diff" $IDS > "$D/$OUT" 2>&1
+  echo "$P: $(grep -v 'rc=0' "$D/$OUT" | tr '\n' ';' | cut -c1-700)"
   find /root/.cache/go-build -type f -mmin +100 -delete 2>/dev/null
 done
